@@ -412,6 +412,8 @@ end
 			Receiver: "local ok, t = ch:receive()\nlocal y = t.x\n"}},
 		// one shared prototype, several states, churn
 		{Kind: "iso", Iso: &IsoSpec{Src: fmt.Sprintf(strings.Join(snippets, "\n"), 40, 7, 12), Other: otherSrc, N: 8, Churn: 3, Procs: 16, TimeoutMs: 60000}},
+		// channel.make with sizes from harmless to absurd, under pcall, next to another state
+		{Kind: "make", Make: &MakeSpec{Sizes: []int64{0, 1, 5, 1024, 1 << 20, 67108865, 1 << 33, 1 << 40, 1 << 44, 1 << 53, 1 << 62, -1, -(1 << 40)}, TimeoutMs: 30000}},
 		// per-state library objects: a state that changes every table it can reach (channel
 		// method table, library tables, string metatable, ...) must not be visible to any other state
 		{Kind: "lib", Lib: &LibSpec{Tag: "corpus", Mutators: 3, Inspect: 3, Rounds: 3, Procs: 8, TimeoutMs: 60000}},
@@ -459,6 +461,22 @@ func genJobs(r *lib.Rand, tier string) []Job {
 	}
 	for i := 0; i < nst; i++ {
 		js = append(js, Job{Kind: "stress", Stress: genStress(r.Fork(), vol)})
+	}
+	for i := 0; i < 2; i++ {
+		var sizes []int64
+		for k := r.Range(4, 10); k > 0; k-- {
+			switch r.Pick(3, 2, 3, 1) {
+			case 0:
+				sizes = append(sizes, int64(r.Range(0, 4096)))
+			case 1:
+				sizes = append(sizes, -int64(r.U64()>>uint(r.Range(1, 62)))-1)
+			case 2:
+				sizes = append(sizes, int64(1)<<uint(r.Range(32, 62))+int64(r.Intn(1000)))
+			case 3:
+				sizes = append(sizes, 67108864+int64(r.Range(1, 1000)))
+			}
+		}
+		js = append(js, Job{Kind: "make", Make: &MakeSpec{Sizes: sizes, TimeoutMs: 30000}})
 	}
 	nlib := 3
 	if tier == "thorough" {
